@@ -280,8 +280,16 @@ def run_traced(job):
         if isinstance(start_mass, str):
             start_mass = {'max': float(pm.maximum_mass), 'max+': float(pm.maximum_mass) + 0.5, 'max++': float(pm.maximum_mass) + 1000.0}[start_mass]
         kw = {} if start_mass is None else {'starting_mass': start_mass}
+        b = builder(fracs=fracs, iterate=iterate)
+        # LegacyFlightTrace.tla BuilderUse: the flight is flown by a new builder, or (every second job) by one that has just
+        # flown the RETURN leg of the same route - the positions of this flight lie on ITS great circle, from ITS origin
+        if (len(route[0]) + sum(map(ord, route[0] + route[1])) + int(lf * 10)) % 2 == 1:
+            try:
+                b.fly(pm, mission(route[1], route[0], load_factor=lf))
+            except Exception:
+                pass
         try:
-            t = builder(fracs=fracs, iterate=iterate).fly(pm, m, **kw)
+            t = b.fly(pm, m, **kw)
         except Exception as e:
             return {'rejected': type(e).__name__, 'msg': str(e)[:100]}
         out = {'ev': project(t, m, pm)}
